@@ -214,7 +214,7 @@ func Record(seed int64, n int, out string) (int, error) {
 		prog := sProgram(s, []byte(cfTexts[cfi]), []byte(cfTexts[ofi]))
 		var in bytes.Buffer
 		in.WriteString("1.0\n")
-		for j := 0; j < 3; j++ {
+		for j := 0; j < 4; j++ {
 			in.Write(s)
 			in.WriteByte('\n')
 		}
